@@ -35,6 +35,8 @@ bool reservedFitsKeyword(const char* key){
 	       strncmp("PERIOD", key, 6) == 0 ||
 	       strncmp("EXTEND", key, 6) == 0 ||
 	       strncmp("COMMENT", key, 7) == 0 ||
+	       strcmp("HISTORY", key) == 0 || //commentary as well: the card has no value field
+	       strcmp("CONTINUE", key) == 0 || //continues the string value of the preceding card
 	       strcmp("END", key) == 0); //terminates the header; anything stored after it is lost
 }
 
